@@ -2,6 +2,7 @@
 from lib import *
 import common
 import C04
+import sem
 
 LEVEL = "other"
 EXPLANATION = ("Decided (thin, stated plainly): the reduction table of any/all and its absent/`Err` default, "
@@ -82,44 +83,77 @@ def rule_trunc(E, R):
     h = E.hir(LOGIC)
     if not h:
         return R.cannot(rule, LOGIC, "anchor not found")
+    S = sem.Sem(E, h)
+    ULO = sem.enum_universe(E, "ast::logical_expr::LogicalOp")
+    pLO = lambda v: norm(v.node.get("ty", "")).replace("&", "").strip() == "ast::logical_expr::LogicalOp"
+    pLE = lambda v: norm(v.node.get("ty", "")).replace("&", "").replace("mut ", "").strip() in ("ast::logical_expr::LogicalExpr", "Self")
+    loops = sem.for_loops(S)
     feats = {}
-    for n, st in walk_arms(h["body"]):
-        if n.get("k") == "Call" and norm(n.get("callee", "")) == "filter::CompiledVecExpr::new" and arm_variants(st, "LogicalExpr") == ["Combining"]:
-            lop = arm_variants(st, "LogicalOp")
-            clo = closure_of(n["args"][0])
-            if not lop or not clo:
-                continue
-            b = clo["body"]
-            zips = [c for c in exprs(b, "MethodCall") if c["m"] == "zip"]
-            zip_ok = len(zips) == 1 and chain_verdict(chain(zips[0])[1][:-1]) == "ok" and local_name(chain(zips[0])[0]) == "output" and \
-                local_name(chain(zips[0]["args"][0])[0]) == "values"
-            trunc = None
-            for i in exprs(b, "If"):
-                c = strip(i["cond"])
-                tr = [x for x in exprs(i["then"], "MethodCall") if x["m"] == "truncate" and local_name(x["recv"]) == "output"]
-                if tr and c.get("k") == "Binary":
-                    l, r = strip(c["l"]), strip(c["r"])
-                    lens = (l.get("m"), local_name(l.get("recv", {})), r.get("m"), local_name(r.get("recv", {})))
-                    arg = strip(tr[0]["args"][0])
-                    trunc = (c["op"], lens, (arg.get("m"), local_name(arg.get("recv", {}))))
-            uncond = [x for x in exprs(b, "MethodCall") if x["m"] == "truncate" and local_name(x["recv"]) == "output"]
-            starts = any(s["pat"].get("name") == "output" and strip(s.get("init", {})).get("m") == "execute" and local_name(strip(s["init"])["recv"]) == "first"
-                         for s in exprs(b, "SLet"))
-            loops = [m for m in exprs(b, "Match") if m.get("src") == "ForLoopDesugar" and local_name(chain(strip(m["scrut"])["args"][0])[0]) == "items"]
-            feats[lop[0]] = {"zip": zip_ok, "truncate": trunc, "starts_from_first": starts, "loops_over_items": len(loops) == 1, "n_trunc": len(uncond)}
-    want_tr = ("Lt", ("len", "values", "len", "output"), ("len", "values"))
+    for s in S.sites():
+        n = s.node
+        if not (n.get("k") == "Call" and norm(n.get("callee", "")) == "filter::CompiledVecExpr::new"):
+            continue
+        if sem.admits(s.pc, pLE, None) != {"LogicalExpr::Combining"}:
+            continue
+        ops = sem.admitted_tuples(s.pc, [pLO], [ULO])
+        clo = closure_of(n["args"][0])
+        if len(ops) != 1 or not clo:
+            continue
+        lop = last_seg(next(iter(ops))[0])
+        inner = [x for x in S.sites() if sem.within(x, clo)]
+        f = {"zip": False, "truncate": None, "n_trunc": 0, "starts_from_first": False, "loops_over_rest": False, "returns_acc": False}
+        truncs = [x for x in inner if x.node.get("k") == "MethodCall" and x.node["m"] == "truncate"]
+        f["n_trunc"] = len(truncs)
+        out_b = sem.root_local(S, truncs[0].node["recv"], truncs[0].frame) if truncs else None
+        # the loop that the truncation sits in
+        loop = None
+        for ls, pat, it in loops:
+            if sem.within(ls, clo) and truncs and any(x.node is truncs[0].node for x in S.sites() if x.frame is ls.frame) and \
+                    any(y is truncs[0].node for y in walk(ls.node)):
+                loop = (ls, pat, it)
+        lv = None
+        if loop and loop[1] is not None:
+            names = [q for q in walk(loop[1]) if q.get("k") == "PBinding"]
+            lv = loop[0].frame.binds.get(names[0]["id"]) if names else None
+        if out_b is not None and lv is not None:
+            t = truncs[0]
+            for op, l, r, fr, certain in sem.weak_cmps(t.pc):
+                rl, rr = sem.is_method(l, "len"), sem.is_method(r, "len")
+                if certain and rl is not None and rr is not None and sem.root_local(S, rl, fr) is lv and sem.root_local(S, rr, fr) is out_b:
+                    arg = sem.is_method(t.node["args"][0], "len")
+                    f["truncate"] = (op, "len(operand) vs len(acc)", "to len(operand)" if arg is not None and sem.root_local(S, arg, t.frame) is lv else "to ?")
+            for z in inner:
+                if z.node.get("k") == "MethodCall" and z.node["m"] == "zip":
+                    r1, c1 = chain(z.node["recv"])
+                    r2, c2 = chain(z.node["args"][0])
+                    if S.lookup(r1, z.frame) is out_b and S.lookup(r2, z.frame) is lv and chain_verdict(c1) == "ok" and chain_verdict(c2) == "ok":
+                        f["zip"] = True
+            # accumulator starts from the first operand, the loop runs over all the others
+            if out_b.expr is not None:
+                rec = sem.is_method(out_b.expr, "execute")
+                if rec is not None:
+                    b1, _, _, m1 = sem.provenance(S, rec, out_b.frame)
+                    b2, _, _, m2 = sem.provenance(S, loop[2], loop[0].frame)
+                    f["starts_from_first"] = b1 is not None and m1[:1] == ["next"] and all(x in ("unwrap", "expect") for x in m1[1:])
+                    f["loops_over_rest"] = b1 is not None and b1 is b2 and chain_verdict([{"m": x} for x in m2]) == "ok"
+                    f["chain"] = (m1, m2)
+            tv, tf = sem.tail_value(S, clo["body"], s.frame)
+            f["returns_acc"] = S.lookup(tv, tf) is out_b
+        feats[lop] = f
+    want_tr = ("Lt", "len(operand) vs len(acc)", "to len(operand)")
     for op in ("And", "Or", "Xor"):
         f = feats.get(op)
         if not f:
             R.violation(rule, LOGIC, "vector %s arm" % op.lower(), "not found")
             continue
         R.check(f["zip"], rule, LOGIC, "vector %s combines element-wise (zip of output and operand)" % op.lower(), str(f), h["span"])
-        R.check(f["truncate"] == want_tr and f["n_trunc"] == 1, rule, LOGIC,
+        R.check(f["truncate"] in (want_tr, ("Le",) + want_tr[1:]) and f["n_trunc"] == 1, rule, LOGIC,
                 "vector %s truncates the result to the shorter operand" % op.lower(),
                 "found %s; without it a longer left operand keeps its unpaired tail" % (f["truncate"],), h["span"])
-        R.check(f["starts_from_first"] and f["loops_over_items"], rule, LOGIC, "vector %s folds all operands starting from the first" % op.lower(), str(f), h["span"])
+        R.check(f["starts_from_first"] and f["loops_over_rest"] and f["returns_acc"], rule, LOGIC,
+                "vector %s folds all operands starting from the first" % op.lower(), str(f), h["span"])
     if len(feats) == 3:
-        vals = list(feats.values())
+        vals = [{k: v for k, v in x.items() if k != "chain"} for x in feats.values()]
         R.check(all(v == vals[0] for v in vals), rule, LOGIC, "the three vector arms agree on the feature set", str(feats))
 
 
@@ -185,9 +219,25 @@ def rule_absent(E, R):
         R.check(len(gets) >= 2 and not idx, rule, fn2, "lookups are Option-returning get() (no panicking index)", where=hh["span"])
     ha = E.hir("lhs_types::array::Array::extract")
     if ha:
-        ok = any(strip(i["cond"]).get("k") == "Binary" and strip(i["cond"])["op"] == "Ge" and def_path(tail(i["then"])) == "core::option::Option::None"
-                 for i in exprs(ha["body"], "If"))
-        R.check(ok, rule, "lhs_types::array::Array::extract", "index >= len -> no value (checked before the unchecked access)", where=ha["span"])
+        S = sem.Sem(E, ha)
+        acc = [x for x in S.sites() if x.node.get("k") == "MethodCall" and x.node["m"] in ("get_unchecked", "swap_remove", "remove")] + \
+              [x for x in S.sites() if x.node.get("k") == "Index"]
+        ok = bool(acc)
+        for x in acc:
+            n = x.node
+            idx = n["args"][0] if n.get("k") == "MethodCall" else n["idx"]
+            recv = n["recv"] if n.get("k") == "MethodCall" else n["e"]
+            ib = sem.provenance(S, idx, x.frame)[0]
+            rb = sem.provenance(S, recv, x.frame)[0]
+            good = False
+            for op, l, r, fr, certain in sem.weak_cmps(x.pc):
+                ln = sem.is_method(r, "len")
+                if certain and op == "Lt" and ln is not None and sem.provenance(S, l, fr)[0] is ib and ib is not None and \
+                        sem.provenance(S, ln, fr)[0] is rb:
+                    good = True
+            ok = ok and good
+        R.check(ok, rule, "lhs_types::array::Array::extract", "index >= len -> no value (checked before the unchecked access)",
+                "every unchecked / panicking access must sit on a path where index < len of the same container", ha["span"])
     # get_nested folds with try_fold over all indexes in order
     for fn3 in ("types::LhsValue::get_nested", "types::LhsValue::extract_nested"):
         hh = E.hir(fn3)
